@@ -5,6 +5,7 @@ package main
 // cut at headers with invariants, calls by contract or inlining.
 
 import (
+	"path/filepath"
 	"bytes"
 	"fmt"
 	"go/ast"
@@ -858,6 +859,14 @@ func (fr *Frame) backEdge(li *loopInfo, from *ssa.BasicBlock, cur *State) {
 		t := env.boolOf(cl.Expr)
 		vc.oblige("inv-step", fr.clauseSite(cl, fmt.Sprintf("loop%d", li.ord)), guard, t, fr.clauseProps(cl), cl.Aux || !fr.top, vc.pos(b.Instrs[0].Pos()))
 	}
+	// step clauses: a relation between the state at the loop head (prev(e)) and
+	// the state at the end of the iteration
+	for _, cl := range fr.loopClauses(li, "step") {
+		env.prevSt = li.headSt
+		env.prevPhi = li.phiHead
+		t := env.boolOf(cl.Expr)
+		vc.oblige("inv-step", fr.clauseSite(cl, fmt.Sprintf("loop%d.step", li.ord)), guard, t, fr.clauseProps(cl), cl.Aux || !fr.top, vc.pos(b.Instrs[0].Pos()))
+	}
 	decs := fr.loopClauses(li, "decreases")
 	if len(decs) > 0 {
 		// lexicographic decrease, bounded below by 0
@@ -1104,7 +1113,9 @@ func (fr *Frame) execBody(b *ssa.BasicBlock, cur *State, rch Term, backEdges boo
 			alive = false
 		case *ssa.If, *ssa.Jump:
 		default:
-			fr.exec(ins, cur, rch)
+			if !fr.execAbstract(ins, cur, rch) {
+				alive = false
+			}
 		}
 		if !alive {
 			break
@@ -1122,6 +1133,32 @@ func (fr *Frame) execBody(b *ssa.BasicBlock, cur *State, rch Term, backEdges boo
 	} else {
 		delete(fr.reach, b)
 	}
+}
+
+// execAbstract executes one instruction.  When the top-level contract says
+// "abstract" and the instruction (or a callee inlined at it) uses a construct
+// outside the supported subset, the path is cut off at this instruction: nothing
+// that lies behind it on this path is examined, and the cut is reported as an
+// unchecked assumption.  Without "abstract" the function fails closed.
+func (fr *Frame) execAbstract(ins ssa.Instruction, cur *State, rch Term) (alive bool) {
+	top := fr.vc.topFrame
+	if top == nil || top.contract == nil || !top.contract.Abstract {
+		fr.exec(ins, cur, rch)
+		return true
+	}
+	alive = true
+	defer func() {
+		if r := recover(); r != nil {
+			u, ok := r.(unsupported)
+			if !ok {
+				panic(r)
+			}
+			alive = false
+			fr.vc.note("ABSTRACTED: paths through the instruction at %s (%s) are cut off and not examined: %s", fr.siteOf(ins, ins.String()), filepath.Base(fr.vc.pos(ins.Pos()).String()), u.Error())
+		}
+	}()
+	fr.exec(ins, cur, rch)
+	return true
 }
 
 func (fr *Frame) unrollBound(li *loopInfo) int {
